@@ -135,25 +135,49 @@ func (r Recv) lenGuess() int64 {
 
 // ---------- operations ----------
 
-func (g *gen) cbScript(n int64) []CbStep {
+// mode 0: ordinary; 1: heavy (the callback grows / shrinks / edits the receiver early in the walk);
+// 2: for length-getter receivers (element edits only)
+func (g *gen) cbScript(n int64, mode int) []CbStep {
 	r := g.r
 	k := r.Intn(int(n) + 2)
-	if r.Intn(4) == 0 {
+	if mode == 0 && r.Intn(4) == 0 {
 		k = 0
+	}
+	if mode == 1 {
+		k = int(n) + 1 + r.Intn(4)
 	}
 	st := make([]CbStep, k)
 	for i := range st {
 		st[i].ret = Pick(r, []V{vBool(true), vBool(false), vNum(1), vNum(0), vUndef, vStr("x"), vStr(""), vNull, vNum(float64(r.Intn(9))), vNum(math.NaN())})
 	}
-	if k > 0 && r.Intn(7) == 0 {
-		i := r.Intn(k)
-		if r.Intn(3) == 0 {
-			st[i].mut, st[i].k = 'd', kIdx(int64(r.Intn(int(n)+1)))
-		} else if r.Intn(4) == 0 {
-			st[i].mut, st[i].k, st[i].v = 'p', kName("length"), vNum(float64(r.Intn(int(n)+2)))
-		} else {
-			st[i].mut, st[i].k, st[i].v = 'p', kIdx(int64(r.Intn(int(n)+2))), g.val()
+	mutate := func(i int) {
+		c := r.Intn(20)
+		if mode == 2 {
+			c = 11 + r.Intn(9)
 		}
+		switch {
+		case c < 6:
+			st[i].mut, st[i].v = 'a', g.val()
+		case c < 9:
+			st[i].mut, st[i].k, st[i].v = 'p', kName("length"), vNum(float64(n)+float64(r.Intn(4))-1)
+		case c < 11:
+			st[i].mut, st[i].k, st[i].v = 'p', kName("length"), vNum(float64(r.Intn(int(n)+1)))
+		case c < 14:
+			st[i].mut, st[i].k = 'd', kIdx(int64(r.Intn(int(n)+1)))
+		case c < 17:
+			st[i].mut, st[i].k, st[i].v = 'p', kIdx(n+int64(r.Intn(3))), g.val()
+		default:
+			st[i].mut, st[i].k, st[i].v = 'p', kIdx(int64(r.Intn(int(n)+1))), g.val()
+		}
+	}
+	switch {
+	case mode == 1 && k > 0:
+		mutate(r.Intn(min(k, 2)))
+		if r.Intn(3) == 0 {
+			mutate(r.Intn(k))
+		}
+	case k > 0 && r.Intn(5) == 0:
+		mutate(r.Intn(k))
 	}
 	if k > 0 && r.Intn(25) == 0 {
 		st[r.Intn(k)].throw = true
@@ -213,7 +237,11 @@ func (g *gen) call(rc Recv, m int) Op {
 		if r.Intn(12) > 0 {
 			op.args = append(op.args, av(search()))
 			if r.Intn(3) > 0 {
-				op.args = append(op.args, av(g.numArg(n)))
+				if r.Intn(6) == 0 {
+					op.args = append(op.args, av(vUndef))
+				} else {
+					op.args = append(op.args, av(g.numArg(n)))
+				}
 			}
 		}
 	case 10, 11, 12, 13, 14:
@@ -229,7 +257,7 @@ func (g *gen) call(rc Recv, m int) Op {
 			case 1:
 				op.args = append(op.args, av(Pick(r, []V{vUndef, vNull})))
 			}
-			op.cbs = g.cbScript(n)
+			op.cbs = g.cbScript(n, 0)
 		}
 	case 15, 16:
 		if r.Intn(14) == 0 {
@@ -242,7 +270,7 @@ func (g *gen) call(rc Recv, m int) Op {
 			if r.Intn(2) == 0 {
 				op.args = append(op.args, av(g.val()))
 			}
-			op.cbs = g.cbScript(n)
+			op.cbs = g.cbScript(n, 0)
 		}
 	case 17:
 		for i := r.Intn(4); i > 0; i-- {
@@ -253,7 +281,54 @@ func (g *gen) call(rc Recv, m int) Op {
 			}
 		}
 	}
+	g.extras(&op, rc)
 	return op
+}
+
+// with probability 1/3 fill the optional positions and append one or two arguments the method must ignore
+func (g *gen) extras(op *Op, rc Recv) {
+	r := g.r
+	m := op.m
+	if m == 2 || m == 6 || m == 7 || m == 17 || r.Intn(3) > 0 {
+		return
+	}
+	n := rc.lenGuess()
+	fill := func(want int, mk func() Arg) {
+		for len(op.args) < want {
+			op.args = append(op.args, mk())
+		}
+	}
+	switch m {
+	case 0:
+		fill(1, func() Arg { return av(Pick(r, []V{vUndef, vStr(","), vStr("-"), vNull})) })
+	case 5:
+		fill(2, func() Arg { return av(g.numArg(n)) })
+	case 8, 9:
+		fill(1, func() Arg { return av(g.val()) })
+		fill(2, func() Arg { return av(g.numArg(n)) })
+	case 10, 11, 12, 13, 14:
+		if len(op.args) == 0 || op.args[0].kind != 'c' {
+			return
+		}
+		fill(2, func() Arg {
+			if r.Intn(2) == 0 {
+				return Arg{kind: 't'}
+			}
+			return av(Pick(r, []V{vUndef, vNull}))
+		})
+	case 15, 16:
+		if len(op.args) == 0 || op.args[0].kind != 'c' {
+			return
+		}
+		fill(2, func() Arg { return av(g.val()) })
+	}
+	for i := 1 + r.Intn(2); i > 0; i-- {
+		if m == 18 || r.Intn(2) == 0 {
+			op.args = append(op.args, av(g.val()))
+		} else {
+			op.args = append(op.args, av(g.numArg(n)))
+		}
+	}
 }
 
 func (g *gen) anyMethod(rc Recv) int {
@@ -532,8 +607,8 @@ func (g *gen) ctorCase() {
 	g.runCtor(args, r.Intn(2) == 0, "constructor")
 }
 
-// ---------- pinned witnesses (run first on every run): all nine findings are repaired in /repo;
-// these are regression cases that expect the ES5 result ----------
+// ---------- pinned witnesses (run first on every run): findings 1-9 are repaired in /repo and are
+// regression cases that expect the ES5 result; 11 and 12 are open ----------
 
 func nums(xs ...float64) []*V {
 	a := make([]*V, len(xs))
@@ -571,6 +646,11 @@ func (g *gen) pinned() {
 	g.runHist(arr(nums(1, 2, 3)), []Op{{kind: 'p', k: kName("length"), d: Desc{w: bp(false)}}, {kind: 'p', k: kName("length"), d: Desc{v: vp(vNum(3))}}}, "pinned")
 	// 9 (fixed 27b5748) substr: saturated length
 	g.runStr(2, "abc", []V{vNum(1), vNum(math.Inf(1))}, "pinned")
+	// 11 (open) toString forwards its arguments to join
+	g.runHist(arr(nums(1, 2)), []Op{{kind: 'c', m: 18, args: []Arg{av(vStr("-"))}}}, "pinned")
+	// 12 (open) the callback methods read length only after the IsCallable test
+	g.runHist(Recv{elems: []*V{vp(vStr("a")), vp(vStr("b"))}, length: vp(vNum(2)), lenGet: true},
+		[]Op{{kind: 'c', m: 12, args: []Arg{av(vNum(1))}}}, "pinned")
 }
 
 // ---------- driver ----------
@@ -578,14 +658,134 @@ func (g *gen) pinned() {
 func runC08(env *Env) {
 	env.Import = "Otto.C08.Corr"
 	env.Rule = "receivers: arrays and array-likes of 0-8 slots (values, holes, all-holes), odd lengths for array-likes, inherited index properties on Object/Array.prototype; " +
-		"histories of 1-6 steps over assignments, deletes, defineProperty (elements and length), freeze/seal/preventExtensions and the 18 Array.prototype methods + sort; " +
+		"histories of 1-6 steps over assignments, deletes, defineProperty (elements and length), freeze/seal/preventExtensions and the 20 Array.prototype methods of the table (toString/toLocaleString included, with 0-2 superfluous arguments on every method) + sort; callbacks that append/grow/shrink/edit the receiver during the walk; mutators on sealed/frozen/non-extensible/non-writable/non-configurable receivers; array-likes whose length getter counts its reads; " +
 		"numeric arguments drawn around 0, +-length, +-1/2, NaN, +-Infinity, +-2^31..2^64, undefined/null/booleans/digit strings; callbacks scripted (return value, mutation of the receiver, throw); " +
 		"every generated case counts as non-trivial when its text is distinct (the generator has no filler cases)"
 	g := &gen{env: env, r: env.Rng}
 	r := g.r
 	g.pinned()
 	for env.Count() < env.N {
-		switch k := r.Intn(22); {
+		switch k := r.Intn(33); {
+		case k == 31: // push / pop / append where length + argCount crosses 2^32 (array-likes: n is a mathematical integer)
+			rc := Recv{elems: g.slots(r.Intn(3), 0)}
+			rc.length = vp(Pick(r, []V{vNum(4294967295), vNum(4294967294), vNum(4294967293), vNum(-1), vNum(-2), vNum(-3), vNum(8589934591), vNum(8589934590), vNum(4294967295.9), vStr("4294967295")}))
+			var ops []Op
+			for i := 1 + r.Intn(2); i > 0; i-- {
+				op := Op{kind: 'c', m: Pick(r, []int{2, 2, 2, 1})}
+				if op.m == 2 {
+					for j := r.Intn(4); j > 0; j-- {
+						op.args = append(op.args, av(g.val()))
+					}
+				}
+				ops = append(ops, op)
+			}
+			g.runHist(rc, ops, "near-2^32")
+		case k == 32: // one more share of mutation histories
+			rc := g.recv(r.Intn(5) > 0)
+			var ops []Op
+			for i := 2 + r.Intn(5); i > 0; i-- {
+				if r.Intn(4) == 0 {
+					ops = append(ops, g.call(rc, Pick(r, []int{1, 2, 4, 7, 6, 3, g.anyMethod(rc)})))
+				} else {
+					ops = append(ops, g.mutation(rc))
+				}
+			}
+			g.runHist(rc, ops, "histories")
+		case k >= 22 && k < 25: // iteration methods whose callback grows / shrinks / edits the receiver during the walk
+			rc := g.recv(false)
+			for len(rc.elems) < 2 {
+				rc = g.recv(false)
+			}
+			n := rc.lenGuess()
+			var ops []Op
+			for i := 1 + r.Intn(2); i > 0; i-- {
+				m := 10 + r.Intn(7)
+				op := Op{kind: 'c', m: m, args: []Arg{{kind: 'c'}}, cbs: g.cbScript(n, 1)}
+				if m >= 15 && r.Intn(2) == 0 {
+					op.args = append(op.args, av(g.val()))
+				} else if m < 15 && r.Intn(3) == 0 {
+					op.args = append(op.args, Arg{kind: 't'})
+				}
+				ops = append(ops, op)
+			}
+			g.runHist(rc, ops, "mutating-callbacks")
+		case k >= 25 && k < 29: // mutators on hardened receivers: the state after the TypeError is compared
+			rc := g.recv(r.Intn(6) > 0)
+			if rc.lenGuess() < 2 || (!rc.arr && (rc.length == nil || rc.length.k != 'd' || rc.length.n > 20 || rc.length.n < 0)) {
+				rc = Recv{arr: true, elems: g.slots(2+r.Intn(5), Pick(r, []int{1, 2, 2}))}
+			}
+			n := rc.lenGuess()
+			if rc.proto == nil && r.Intn(3) == 0 {
+				rc.proto = map[int64]Prop{int64(r.Intn(int(n) + 1)): {v: vStr("P"), w: r.Intn(4) > 0, e: true, c: true}}
+				rc.onAP = rc.arr && r.Intn(2) == 0
+			}
+			var ops []Op
+			for i := 1 + r.Intn(2); i > 0; i-- {
+				idx := kIdx(r.Int63n(n + 1))
+				switch r.Intn(9) {
+				case 0, 1:
+					ops = append(ops, Op{kind: 'e'})
+				case 2:
+					ops = append(ops, Op{kind: 'l'})
+				case 3:
+					ops = append(ops, Op{kind: Pick(r, []byte{'f', 'e'})})
+				case 4, 5:
+					ops = append(ops, Op{kind: 'p', k: idx, d: Desc{c: bp(false)}})
+				case 6:
+					ops = append(ops, Op{kind: 'p', k: idx, d: Desc{w: bp(false)}})
+				case 7:
+					ops = append(ops, Op{kind: 'p', k: idx, d: Desc{v: vp(g.val()), w: bp(r.Intn(2) == 0), e: bp(true), c: bp(r.Intn(2) == 0)}})
+				default:
+					ops = append(ops, Op{kind: 'p', k: kName("length"), d: Desc{w: bp(false)}})
+				}
+			}
+			if rc.arr && r.Intn(3) == 0 { // truncation against the hardened elements (15.4.5.1 step 3.l)
+				nl := vNum(float64(r.Intn(int(n) + 1)))
+				switch r.Intn(3) {
+				case 0:
+					ops = append(ops, Op{kind: 's', k: kName("length"), v: nl})
+				case 1:
+					ops = append(ops, Op{kind: 'p', k: kName("length"), d: Desc{v: vp(nl), w: bp(false)}})
+				default:
+					ops = append(ops, Op{kind: 'p', k: kName("length"), d: Desc{v: vp(nl)}})
+				}
+				if r.Intn(2) == 0 {
+					ops = append(ops, g.mutation(rc))
+				}
+			}
+			for i := 1 + r.Intn(2); i > 0; i-- {
+				m := Pick(r, []int{1, 2, 3, 3, 3, 4, 4, 6, 6, 7, 7, 7})
+				op := g.call(rc, m)
+				if (m == 2 || m == 7) && r.Intn(2) == 0 {
+					op.args = nil
+				}
+				ops = append(ops, op)
+			}
+			g.runHist(rc, ops, "hardened")
+		case k >= 29: // array-likes whose length is a getter that counts its reads
+			n := r.Intn(6)
+			rc := Recv{elems: g.slots(n, Pick(r, []int{0, 1, 2})), lenGet: true}
+			fn := float64(n)
+			rc.length = vp(Pick(r, []V{vNum(fn), vNum(fn), vNum(fn), vNum(fn + 1), vNum(math.Max(fn-1, 0)), vStr(fmt.Sprint(n)), vNum(fn + 0.5), vNum(0), vUndef, vNum(4294967296 + fn)}))
+			if r.Intn(4) == 0 {
+				rc.proto = map[int64]Prop{int64(r.Intn(n + 1)): {v: vStr("P"), w: true, e: true, c: true}}
+			}
+			var ops []Op
+			for i := 1 + r.Intn(2); i > 0; i-- {
+				m := Pick(r, []int{0, 5, 8, 9, 10, 11, 12, 12, 13, 14, 15, 16, 18, 19})
+				op := g.call(rc, m)
+				if m >= 10 && m <= 16 {
+					if len(op.args) > 0 && op.args[0].kind == 'c' {
+						op.cbs = g.cbScript(rc.lenGuess(), 2)
+					}
+					if r.Intn(4) == 0 {
+						op.args, op.cbs = []Arg{av(g.val())}, nil
+					}
+				}
+				ops = append(ops, op)
+			}
+			g.runHist(rc, ops, "length-getter")
+
 		case k < 8: // method calls on a prepared receiver
 			rc := g.recv(false)
 			var ops []Op
